@@ -29,6 +29,8 @@ CFG = dict(
     # THOROUGH tier only (cold build 37-60 s / ~1 GB of artefacts, warm < 1 s); the quick tier never touches it
     bins_thorough_pl=["c07pl"],
     imports=["Run.RunC07"],
+    src_tables=True,   # tools/gen_tables.py (+ tools/gen_tables_drv.py) + Proofs/SrcTablesDrv.v: the driver bodies are re-read from the Rust source on every run
+    src_tables_proofs=["Proofs/SrcTablesDrv.vo"],
     rule="part=access: containers of length 0..=6 (thorough 9): VecDeque built by random push/pop/rotate sequences (every head "
          "offset, wrapped and contiguous; observed layout read back with as_slices), Arc<VecDeque>, Vec, [T], [T;3], Arc<Vec>, the "
          "option view, ndarray owned arrays and views with step in {1,2,3,-1,-2} from two start offsets (layout read back as "
@@ -92,7 +94,7 @@ CFG = dict(
                "before the assertion, so the two paths differ on every series and on the empty series one returns [] while the other "
                "panics - the known row of the degenerate table in notes/C02.md, a clean panic in C10's sense. All model functions are functions of that logical sequence by construction. The container "
                "semantics of std/ndarray/Polars are modelled; the tie is the accessor correspondence plus the exhaustive "
-               "backend x container x path matrix run on the implementation.",
+               "backend x container x path matrix run on the implementation. Second tie (translator): the bodies of the twelve `fn rolling*` of view.rs and the Vec / ndarray / Arc overrides are parsed from the Rust source on every run (tools/gen_tables_drv.py) and proved (Proofs/SrcTablesDrv.v, 23 axiom-free theorems, every window / series / pair of lengths) to denote exactly the guards (check2_default / check2_to / check2_custom, by assertion message), the call lists (args_iter, args_iter_idx, args_iter_idx2, slices_iter, calls_to, calls_to_idx, slices_to) and the backend routing of Model/Driver.v.",
     level_note="Trusted: Coq kernel; the container models (std VecDeque, ndarray views, Polars chunked arrays are external "
                "libraries); the matrix part compares the implementation with itself across backends (relational), the "
                "per-function model ties are C01/C03/C04. Polars backend: the chunked model is tied to polars.rs by the "
